@@ -32,7 +32,9 @@ def _or(a, b):
 
 class Arr:
     """stand-in for a 1-d ndarray (deliberately not a list subclass: the code under test treats lists and arrays differently)"""
-    def __init__(self, items = ()): self._a = list(items._a if isinstance(items, Arr) else items)
+    def __init__(self, items = (), dtype = None):
+        self._a = list(items._a if isinstance(items, Arr) else items)
+        if dtype is not None: self.dtype = dtype
     def __len__(self): return len(self._a)
     def __iter__(self): return iter(self._a)
     def __getitem__(self, i):
@@ -555,6 +557,8 @@ class NPX:
     def full(self, shape, fill_value, dtype = None):
         n = shape[0] if isinstance(shape, tuple) else shape
         if isinstance(shape, tuple) and len(shape) > 1: raise Unsupported('minipd: 2-d arrays')
+        if dtype is not None and str(dtype).startswith('int') and isinstance(fill_value, float) and fill_value != fill_value:
+            return Arr([-9223372036854775808] * n, dtype = str(dtype))      # numpy casts nan into an integer array as INT64_MIN (with a RuntimeWarning)
         return Arr([fill_value] * n)
     def concatenate(self, arrs, axis = 0):
         out = []
@@ -667,6 +671,11 @@ def gate():
     if list(me[(~NPX().isnan(me)).max(axis = 1).values]._cols) != list(re_[(~np.isnan(re_)).max(axis = 1).values].columns): return False, dict(mismatch = 'row-wise max of an empty frame used as a key')
     a2 = Arr2([[1.0, NAN], [NAN, 4.0]]); ra2 = np.array([[1.0, NAN], [NAN, 4.0]])
     if not fsame(DataFrame(a2).ffill(), rpd.DataFrame(ra2).ffill()): return False, dict(mismatch = 'frame from 2-d array')
+    with np.errstate(all = 'ignore'):
+        import warnings
+        with warnings.catch_warnings():
+            warnings.simplefilter('ignore')
+            if list(NPX().full((2,), NAN, dtype = 'int64')) != list(np.full((2,), np.nan, dtype = np.int64)): return False, dict(mismatch = 'nan cast into an int array')
     mi = Series([1.0, NAN, 3.0]); ri = rpd.Series([1.0, NAN, 3.0])
     for k in range(0, 4):
         a = mi[k:]; b = ri[k:]
